@@ -18,7 +18,8 @@ libc_candidates_1d / libc_candidates_2d                         candidate stream
 
 Optional spec keys: "via_build": True (construct through `build_masking_function`, unknown kwargs are filtered),
 "extra": constructor options (crop_corner, max_attempts, tol, slopes, alpha, std_scale, uniform_range).
-`sample_options(rng, name, rows, cols)` draws such options; `Worker(env={"VERIF_FORCE_FRONTEND": "1"})` runs the
+`sample_options(rng, name, rows, cols)` draws such options; `risky(spec)` / `isolated(spec)` say which calls should not
+share a process with the others; `Worker(env={"VERIF_FORCE_FRONTEND": "1"})` runs the
 Cython kernels through the bounds-checked .pyx front-end (an active-list overrun of `_poisson` becomes an IndexError).
 
 A *spec* is {"gen": name, "mode": "static"|…, "shape": [...], "acc": number | [numbers], "cf": number | [numbers] | None,
@@ -449,6 +450,10 @@ def sample_shape(rng, name: str, mode: str, rank=None, small=False):
     rows, cols = rng.choice(sizes), rng.choice(sizes)
     if rng.random() < 0.2:
         cols = rows
+    if name == "VariableDensityPoisson" and rng.random() < 0.5:
+        # clearly non-square, both orders: the per-axis Poisson-disc radii are scaled by rows/max and cols/max
+        a, b = rng.choice([8, 9, 12, 16]), rng.choice([2, 3, 4])
+        rows, cols = (a, min(a * b, 64)) if rng.random() < 0.5 else (min(a * b, 64), a)
     lead = [rng.choice([1, 2, 3, 4]) for _ in range(rank - 3)]
     if is_kt(name) and lead:
         lead[-1] = rng.choice([2, 3, 4, 5])
@@ -495,6 +500,12 @@ def risky(spec: dict) -> bool:
     """calls known to be able to overrun the compiled `_poisson` kernel's active lists (C07 finding
     generator-crashes/VariableDensityPoisson/active-list-overrun): run them bounds-checked"""
     return spec.get("gen") == "VariableDensityPoisson" and spec.get("extra", {}).get("max_attempts", 10) > 10
+
+
+def isolated(spec: dict) -> bool:
+    """calls that run the `_poisson` kernel: keep them in a worker of their own, so that a memory overrun of the
+    compiled kernel cannot corrupt the process that serves the other generators"""
+    return spec.get("gen") == "VariableDensityPoisson" and not spec.get("return_acs")
 
 
 def chosen(spec: dict, res: dict):
